@@ -1,1 +1,1 @@
-from . import T, T9, D, D6  # noqa: F401
+from . import T, T9, D, D6, P  # noqa: F401
